@@ -173,6 +173,10 @@ def scenarios_for(pid, tier, rng, comps):
                       optgen=lambda r: {"deliverOnRel": r.random() < 0.5})
         sc += deep_switch("c12d", [PUB(1), PUB(2)], [PUB(1), PUB(2)])
         sc += timeout_drops("c12t", [[PUB(1)], [PUB(2)], [PUB(2), PUB(1)]], ks=range(2, 6))
+        # retained messages: the flag survives retransmission and the client's queued copy (deferred first transmission)
+        R = lambda qq: PUB(qq, retain=True)  # noqa: E731
+        sc += single_faults("c12n", [[R(1)], [R(2)], [PUB(1), R(1)], [R(1), PUB(2)], [PUB(2), R(2)], [R(0), R(1)]])
+        sc += handshake_submits("c12m", [PUB(1)], [R(0), R(1), R(2)])
         sc += handshake_submits("c12h", [PUB(1), PUB(2)], [PUB(0), PUB(2)])
         # the application re-uses one Message value: a retransmission must not leave DUP set for the next first transmission
         i = 0
